@@ -15,6 +15,9 @@ Line-protocol driver for the C11 model (model + generated schemas only).
       decode <hex> with the *read* codec extracted for <cls> (its tag first if it has one), re-encode the
       value with the *write* codec → ok used=<n> left=<m> reenc=same | ok … reenc=diff@<i> | fail
   XS <fuel> <hex>     → `extract_symbol`: ok <bytes extracted> <bytes left> | err
+  FD <cls> <fuel> <hexA> <hexB>
+      decode both with the read codec of <cls>; path (field names, dict keys, list indices) of the first slot in
+      which the two values differ, and the two leaves → diff <path> :: <a> :: <b> | same | fail
 -/
 open Codec Codec.K
 
@@ -48,6 +51,42 @@ def firstDiff : List Nat → List Nat → Nat → Option Nat
   | _, _, i => some i
 
 def bits (bs : List Bool) : String := String.ofList (bs.map fun b => if b then '1' else '0')
+
+def asText (b : List Nat) : String :=
+  String.ofList (b.map fun x => if 32 ≤ x ∧ x < 127 then Char.ofNat x else '?')
+
+def leaf : Val → String
+  | .str s => "str'" ++ asText s ++ "'"
+  | .bytes s => "bytes:" ++ hx s
+  | .int i => s!"int:{i}"
+  | .bool b => s!"bool:{b}"
+  | .flags bs => "flags:" ++ bits bs
+  | .float b => "float:" ++ hx b
+  | .unit => "unit"
+  | .nil => "[]"
+  | .variant t _ => s!"variant-tag:{t}"
+  | .fld n _ => s!"field:{n}"
+  | .cons _ _ => "list…"
+  | .pair _ _ => "record…"
+
+/-- path to the first difference between two decoded values -/
+partial def vdiff : Val → Val → Nat → Option (List String × String × String)
+  | .fld n a, .fld m b, _ =>
+    if n != m then some ([], s!"field:{n}", s!"field:{m}") else (vdiff a b 0).map fun (p, x, y) => (n :: p, x, y)
+  | .pair (.str k1) r1, .pair (.str k2) r2, _ =>
+    if k1 != k2 then some ([], "str'" ++ asText k1 ++ "'", "str'" ++ asText k2 ++ "'")
+    else (vdiff r1 r2 0).map fun (p, x, y) => (("'" ++ asText k1 ++ "'") :: p, x, y)
+  | .pair a b, .pair c d, _ =>
+    match vdiff a c 0 with
+    | some r => some r
+    | none => vdiff b d 0
+  | .cons a b, .cons c d, i =>
+    match vdiff a c 0 with
+    | some (p, x, y) => some (s!"[{i}]" :: p, x, y)
+    | none => vdiff b d (i + 1)
+  | .variant t a, .variant u b, _ =>
+    if t != u then some ([], s!"tag:{t}", s!"tag:{u}") else vdiff a b 0
+  | a, b, i => if a == b then none else some ((if i > 0 then [s!"[{i}]"] else []), leaf a, leaf b)
 
 def step (line : String) : String :=
   let ws := (line.trimAscii.toString.splitOn " ").filter (· ≠ "")
@@ -95,6 +134,14 @@ def step (line : String) : String :=
       match firstDiff re (bs.take used) 0 with
       | none => s!"ok used={used} left={rest.length} reenc=same"
       | some i => s!"ok used={used} left={rest.length} reenc=diff@{i}"
+  | ["FD", cls, fuel, ha, hb] =>
+    let f := fuel.toNat?.getD 64
+    match dec envRd f (topCodec cls) (parseHex ha), dec envRd f (topCodec cls) (parseHex hb) with
+    | some (a, _), some (b, _) =>
+      match vdiff a b 0 with
+      | none => "same"
+      | some (p, x, y) => "diff " ++ "/".intercalate p ++ " :: " ++ x ++ " :: " ++ y
+    | _, _ => "fail"
   | ["XS", fuel, h] =>
     match extractSymbol (fuel.toNat?.getD 64) (parseHex h) with
     | some (b, r) => s!"ok {b.length} {r.length}"
